@@ -105,6 +105,7 @@ def main():
         if fails:
             res["suite_failures"] = fails[:6]
         # the patch as it applies to the current tree
+        sh(["git", "add", "-A", "-N"], cwd=wt)  # files the patch creates are part of it
         rc, cur = sh(["git", "diff", "HEAD"], cwd=wt)
         res["confirmed"] = bool(res.get("builds") and res["demo_passes_without_patch"] and res["demo_fails_with_patch"] and res["suite_passes_with_patch"])
     finally:
@@ -150,6 +151,7 @@ def stage2(res, cur, d, prop, budget, keep, also, demo, pkg, runpat):
             res["sibling"] = {"property": also, "cmd": "./check %s quick (VERIF_BUDGET_S=%s)" % (also, budget), "detected": r2.returncode == 1, "exit": r2.returncode, "rules": rules2, "wall_s": round(time.time() - t1, 1)}
     finally:
         sh(["git", "-C", "/repo", "checkout", "--", "."])
+        sh(["git", "-C", "/repo", "clean", "-fdq"])  # files the patch created
         os.remove(curpatch)
         if res.get("check_exit") == 2:
             res["check_tail"] = r.stdout[-1500:]
